@@ -3,10 +3,11 @@
 # Runs every seeded change in /verif/seeded against the quick check of its own property (plus the
 # further checks named in EXTRA) and stores the output as seeded/<id>/check_output.txt.
 # /repo is restored after every trial (tools/try_seed.sh); evidence/ is left as it was.
-declare -A EXTRA=( [S-C18-1]="C08" [S-C09-1]="C06" [S-C04-1]="C05" [S-C05-2]="C04" [S-C13-2]="C08" [S-C08-1]="C10 C09" )
-ids="$*"; [ -n "$ids" ] || ids="$(ls /verif/seeded)"
+declare -A EXTRA=( [S-C01-2]="C08" [S-C12-2]="C16" [S-C15-2]="C14" [S-C18-2]="C08" [S-C19-1]="C02" [S-C19-2]="C01" [S-C18-1]="C08" [S-C09-1]="C06" [S-C04-1]="C05" [S-C05-2]="C04" [S-C13-2]="C08" [S-C08-1]="C10 C09" )
+ROOT="$(cd "$(dirname "$0")/.." && pwd)"
+ids="$*"; [ -n "$ids" ] || ids="$(ls "$ROOT/seeded")"
 for id in $ids; do
   prop="$(echo "$id" | sed -E 's/^S-(C[0-9]+)-.*/\1/')"
-  /verif/tools/try_seed.sh "$id" $prop ${EXTRA[$id]:-} > "/verif/seeded/$id/check_output.txt" 2>&1
-  echo "$id: $(grep '^CAUGHT-BY' /verif/seeded/$id/check_output.txt)"
+  "$ROOT/tools/try_seed.sh" "$id" $prop ${EXTRA[$id]:-} > "$ROOT/seeded/$id/check_output.txt" 2>&1
+  echo "$id: $(grep '^CAUGHT-BY' $ROOT/seeded/$id/check_output.txt)"
 done
